@@ -51,7 +51,39 @@ def check(facts):
                 continue
             cal = (t.get("callee") or "").split("::")[-1]
             key = "%s group_names.%s" % (fn, cal)
-            if cal in ("push", "insert", "extend", "append", "push_within_capacity"):
+            if cal in ("truncate", "clear", "pop", "remove", "swap_remove", "drain", "retain", "split_off"):
+                n_store += 1
+                r.fail(key, "group names are removed while emitting (%s): names stored for other groups are lost" % cal, facts.loc(fn, t["line"]))
+            elif cal == "resize":
+                n_store += 1
+                # resize may only grow: it must sit on the true edge of a comparison of group_names.len() with the index
+                grows = False
+                for d in b.dom()[bb]:
+                    tt = b.blocks[d]["t"]
+                    if tt["k"] != "switch" or tt["discr"]["k"] not in ("copy", "move"):
+                        continue
+                    df = b.single_def(tt["discr"]["pl"]["l"])
+                    if not (df and df[2] == "assign" and df[3]["rv"]["k"] == "bin" and df[3]["rv"]["op"] in ("Le", "Lt", "Ge", "Gt")):
+                        continue
+                    ops = (df[3]["rv"]["a"], df[3]["rv"]["b"])
+                    has_len = False
+                    for o in ops:
+                        if o["k"] in ("copy", "move"):
+                            dd = b.single_def(o["pl"]["l"])
+                            if dd and dd[2] == "call" and (dd[3].get("callee") or "").endswith("::len") and dd[3]["args"] \
+                                    and place_rooted_at_field(b, dd[3]["args"][0], "group_names"):
+                                has_len = True
+                    if has_len and bb in b.reach_from(tt["otherwise"]) and not any(
+                            bb in b.reach_from(tg) for v, tg in tt["targets"] if tg != tt["otherwise"] and tg not in b.dom()[bb] and False):
+                        # the resize block must be dominated by exactly one of the switch's edges
+                        if tt["otherwise"] in b.dom()[bb] or any(tg in b.dom()[bb] for v, tg in tt["targets"]):
+                            grows = True
+                if grows:
+                    r.ok(key, "resize only on the edge where group_names.len() was compared with the index (grow only)")
+                else:
+                    r.fail(key, "group_names.resize is not guarded by a comparison with its current length: Vec::resize also shrinks, so a "
+                                "lower group id emitted later (lookbehind order) truncates names already stored for higher ids", facts.loc(fn, t["line"]))
+            elif cal in ("push", "insert", "extend", "append", "push_within_capacity"):
                 n_store += 1
                 r.fail(key, "group name appended in emission order (%s): inside a lookbehind groups are emitted right to left, so names "
                             "attach to the wrong group ids" % cal, facts.loc(fn, t["line"]))
@@ -127,6 +159,55 @@ def check(facts):
         else:
             r.fail(key, "chooses a group by name alone (no test whether the capture participated): with duplicate names in different "
                         "alternatives it reports the first group even when another one matched", facts.loc(names[0]))
+
+    # (b2) the duplicate scan of NamedGroups::next leaves its loop early only when a participating duplicate was found
+    ng = [n for n in facts.body_names() if n.endswith("Iterator>::next") and "NamedGroups" in n]
+    if ng:
+        from .lbseq import natural_loops
+        b = facts.body(ng[0])
+        loops = natural_loops(b)
+        is_some_blocks = [bb for bb, t in b.iter_calls() if (t.get("callee") or "").endswith("Option::<T>::is_some")]
+        key = "%s duplicate scan exits early only on a participating duplicate" % ng[0]
+        if not is_some_blocks:
+            r.fail(key, "no is_some() participation test found in the duplicate scan", facts.loc(ng[0]))
+        else:
+            isb = is_some_blocks[0]
+            # innermost loop containing the participation test
+            cands = [(h, nodes) for h, nodes in loops.items() if isb in nodes]
+            if not cands:
+                r.fail(key, "the participation test is not inside a loop over the later groups", facts.loc(ng[0]))
+            else:
+                h, nodes = min(cands, key=lambda x: len(x[1]))
+                # the switch on the is_some() result
+                nb = b.blocks[isb]["t"]["t"]
+                sw = b.blocks[nb]["t"]
+                true_tgt = sw.get("otherwise") if sw["k"] == "switch" else None
+                succ = b.succ()
+                bad = []
+                for x in nodes:
+                    for y in succ.get(x, []):
+                        if y in nodes:
+                            continue
+                        # an exit edge: either the iterator is exhausted (exit from the header's `next()` match) or an early break
+                        t = b.blocks[x]["t"]
+                        exhausted = False
+                        if t["k"] == "switch" and t["discr"]["k"] in ("copy", "move"):
+                            dd = b.single_def(t["discr"]["pl"]["l"])
+                            if dd and dd[2] == "assign" and dd[3]["rv"]["k"] == "discr" and "Option" in (dd[3]["rv"].get("enum") or ""):
+                                src = b.single_def(dd[3]["rv"]["pl"]["l"])
+                                if src and src[2] == "call" and (src[3].get("callee") or "").endswith("Iterator::next"):
+                                    exhausted = True
+                        if exhausted:
+                            continue
+                        if true_tgt is not None and (y == true_tgt or true_tgt in b.dom()[x] or x == true_tgt):
+                            continue
+                        bad.append(b.blocks[x]["t"].get("line") or b.blocks[y]["t"].get("line"))
+                if bad:
+                    r.fail(key, "the scan over later groups with the same name is left (line %s) without having found a participating one: "
+                                "with three or more duplicates the name is reported as None although a later group matched" % bad[0],
+                           facts.loc(ng[0], bad[0]))
+                else:
+                    r.ok(key, "early exit only on the is_some() edge")
 
     # (c) successful_match: in-order pass over the whole store
     sm = [n for n in facts.body_names() if re.search(r"successful_match$", n)]
